@@ -9889,6 +9889,11 @@ class Parser:
         options = []
         while self._curr and not self._match(TokenType.R_PAREN, advance=False):
             option = self._parse_var(any_token=True)
+            if option is None:
+                # A reserved token can't start a parameter: report it instead of spinning on it forever
+                self.raise_error("Expected COPY parameter")
+                break
+
             prev = self._prev.text.upper()
 
             # Different dialects might separate options and values by white space, "=" and "AS"
